@@ -376,6 +376,7 @@ ADAPTORS = {
     "std::option::Option::<T>::unwrap_or": "opt_unwrap_or",
     "std::option::Option::<T>::ok_or": "opt_ok_or",
     "std::option::Option::<T>::ok_or_else": "opt_ok_or_else",
+    "std::option::Option::<T>::filter": "opt_filter",
     "std::result::Result::<T, E>::map": "res_map",
     "std::result::Result::<T, E>::and_then": "res_and_then",
     "std::result::Result::<T, E>::unwrap_or_else": "res_unwrap_or_else",
@@ -698,6 +699,23 @@ class Desugar:
         self._two_way(body, blk, t, OPT,
                       lambda X, done: self._call_then(body, blk, t, e, [], lambda R: _agg(RES, "Err", [_mv(R)])),
                       lambda X, done: done(_agg(RES, "Ok", [_payload(X, "Some")])))
+
+    def d_opt_filter(self, body, blk, t, marks):
+        """o.filter(p): Some(x) if p(&x) { Some(x) } else { None }"""
+        f = self.need_callable(body, t["args"][1], marks)
+        span, chain = t["span"], blk.get("inl", ())
+        dest, target = t["dest"]["l"], t["target"]
+
+        def some_arm(X, done):
+            R = self.new_local(body, "bool")
+            REF = self.new_local(body, "&?")
+            keep = done(_agg(OPT, "Some", [_payload(X, "Some")]))
+            drop_ = done(_agg(OPT, "None", []))
+            sw = self.new_block(body, [], {"k": "switch", "discr": _mv(R), "discr_ty": "bool", "targets": [[0, drop_]], "otherwise": keep, "span": span}, chain)
+            entry = self.emit_callable(body, f, [_mv(REF)], R, sw, span, chain)
+            body["blocks"][entry]["stmts"].insert(0, self.st(REF, {"k": "ref", "mut": False, "fake": False, "place": {"l": X, "p": [{"d": 1, "n": "Some"}, {"f": 0, "n": "0"}]}}, span))
+            return entry
+        self._two_way(body, blk, t, OPT, lambda X, done: done(_agg(OPT, "None", [])), some_arm)
 
     def d_res_map(self, body, blk, t, marks):
         f = self.need_callable(body, t["args"][1], marks)
